@@ -226,6 +226,10 @@ func (server *SugarDB) setValues(ctx context.Context, entries map[string]interfa
 		expireAt := time.Time{}
 		if _, ok := server.store[database][key]; ok {
 			expireAt = server.store[database][key].ExpireAt
+			// A value written over a key that has already expired is a new key: it does not inherit the old expiry.
+			if expireAt != (time.Time{}) && expireAt.Before(server.clock.Now()) {
+				expireAt = time.Time{}
+			}
 		}
 		server.store[database][key] = internal.KeyData{
 			Value:    value,
